@@ -53,6 +53,8 @@ pub struct Pass0Context {
     pub expansions: Cell<usize>,
     // files included from macro bodies so far
     pub included_files: Rc<Cell<usize>>,
+    // lines of macro bodies read for expansion so far
+    pub expanded_lines: Cell<usize>,
 }
 
 impl Pass0Context {
@@ -102,6 +104,7 @@ pub fn build_pass_0(
         messages: Rc::new(RefCell::new(parsed.messages)),
         expansions: Cell::new(0),
         included_files: Rc::new(Cell::new(0)),
+        expanded_lines: Cell::new(0),
     };
 
     // macro calls are expanded wherever they stand, in the data and eeprom segments too
@@ -122,6 +125,45 @@ const MAX_MACRO_DEPTH: usize = 64;
 
 /// Macro calls one build may expand: macros that each call the previous one twice double the output with every level
 const MAX_MACRO_EXPANSIONS: usize = 1 << 18;
+
+/// Lines of macro bodies one build may expand: a few calls of long bodies that call long bodies give as many lines
+/// as many calls do. No device has room for more (the largest flash holds 128 K instructions)
+const MAX_EXPANDED_LINES: usize = 1 << 20;
+
+/// Longest line a macro body may become when its arguments are put in: an argument handed on twice doubles with every level
+const MAX_EXPANDED_LINE: usize = 1 << 16;
+
+/// Puts the arguments in: `@n` stands for the n-th one. One digit is looked at (`@1` was always replaced before `@10`
+/// could be), and the line is read once, however many arguments there are.
+fn substitute(raw_line: &str, arguments: &[String], line: &CodePoint) -> Result<String, Error> {
+    let mut out = String::new();
+    let mut chars = raw_line.chars().peekable();
+    while let Some(c) = chars.next() {
+        let argument = if c == '@' {
+            chars
+                .peek()
+                .and_then(|digit| digit.to_digit(10))
+                .and_then(|n| arguments.get(n as usize))
+        } else {
+            None
+        };
+        match argument {
+            Some(argument) => {
+                chars.next();
+                out.push_str(argument);
+            }
+            None => out.push(c),
+        }
+        if out.len() > MAX_EXPANDED_LINE {
+            bail!(
+                "a line of the macro body becomes too long with the arguments put in, {}",
+                line
+            );
+        }
+    }
+
+    Ok(out)
+}
 
 fn pass0_internal(
     segment: Segment,
@@ -147,6 +189,17 @@ fn pass0_internal(
                         );
                     }
                     context.expansions.set(context.expansions.get() + 1);
+                    let body_lines = macroses.get(macro_name).map_or(0, |body| body.len());
+                    match context.expanded_lines.get().checked_add(body_lines) {
+                        Some(lines) if lines <= MAX_EXPANDED_LINES => {
+                            context.expanded_lines.set(lines)
+                        }
+                        _ => bail!(
+                            "macro calls expand to too many lines (more than {}), {}",
+                            MAX_EXPANDED_LINES,
+                            line
+                        ),
+                    }
                     let segments = macro_expand(line, macro_name, ops, context, macroses)?;
                     if !segments.is_empty() {
                         let current_type = context.last_segment().unwrap().borrow().t;
@@ -198,14 +251,10 @@ fn macro_expand(
     }))]));
     if let Some(macro_body) = macroses.get(macro_name) {
         let macro_body = if !ops.is_empty() {
+            let arguments: Vec<String> = ops.iter().map(|x| x.to_string()).collect();
             let mut processed = vec![];
             for (cp, raw_line) in macro_body {
-                let mut raw_line = raw_line.clone();
-                let string_rep = ops.iter().map(|x| x.to_string());
-                for (num, replacer) in string_rep.enumerate() {
-                    raw_line = raw_line.replace(&format!("@{}", num), replacer.as_str());
-                }
-                processed.push((cp.clone(), raw_line));
+                processed.push((cp.clone(), substitute(raw_line, &arguments, line)?));
             }
             processed
         } else {
